@@ -12,6 +12,12 @@
 //	           no shared writes and no locks, so no happens-before edge is
 //	           added and the race detector is not blinded
 //	2  sched   named gates (hold / release / wait-for-n-parked), hit counters
+//	-  locks   (switched by op=locktrack, independent of the mode) lock-order monitor: every Lock/RLock statement of the instrumented
+//	           packages reports the lock's class (type + field) before acquiring,
+//	           every Unlock/RUnlock reports the release; an edge A -> B is recorded
+//	           when a goroutine asks for class B while holding class A. Cycles are
+//	           looked for by the harness (a cycle = two code paths that take the same
+//	           two locks in opposite orders: a deadlock some schedule can reach).
 package verifrt
 
 import (
@@ -33,6 +39,82 @@ var (
 	gates = map[string]*gate{}
 	hits  = map[string]uint64{}
 )
+
+type lockEdge struct {
+	From     string `json:"from"`
+	To       string `json:"to"`
+	FromSite string `json:"from_site"`
+	ToSite   string `json:"to_site"`
+	Count    int    `json:"count"`
+}
+
+type heldLock struct{ class, site string }
+
+var (
+	lmu       sync.Mutex
+	heldBy    = map[uint64][]heldLock{}
+	lockEdges = map[string]*lockEdge{}
+	lockAcqs  uint64
+	lockTrack atomic.Bool
+)
+
+func goid() uint64 {
+	var buf [64]byte
+	n := runtime.Stack(buf[:], false)
+	// "goroutine 123 ["
+	var id uint64
+	for i := len("goroutine "); i < n && buf[i] >= '0' && buf[i] <= '9'; i++ {
+		id = id*10 + uint64(buf[i]-'0')
+	}
+	return id
+}
+
+// Acq is called just before a Lock / RLock statement.
+func Acq(class, site string) {
+	if !lockTrack.Load() {
+		return
+	}
+	g := goid()
+	lmu.Lock()
+	lockAcqs++
+	for _, h := range heldBy[g] {
+		if h.class == class {
+			continue
+		}
+		k := h.class + " -> " + class
+		e := lockEdges[k]
+		if e == nil {
+			e = &lockEdge{From: h.class, To: class, FromSite: h.site, ToSite: site}
+			lockEdges[k] = e
+		}
+		e.Count++
+	}
+	heldBy[g] = append(heldBy[g], heldLock{class, site})
+	lmu.Unlock()
+}
+
+// Rel is called at an Unlock / RUnlock statement (for a deferred unlock: right
+// after it ran).
+func Rel(class string) {
+	if !lockTrack.Load() {
+		return
+	}
+	g := goid()
+	lmu.Lock()
+	hs := heldBy[g]
+	for i := len(hs) - 1; i >= 0; i-- {
+		if hs[i].class == class {
+			hs = append(hs[:i], hs[i+1:]...)
+			break
+		}
+	}
+	if len(hs) == 0 {
+		delete(heldBy, g)
+	} else {
+		heldBy[g] = hs
+	}
+	lmu.Unlock()
+}
 
 type gate struct {
 	hold    bool
@@ -114,6 +196,7 @@ func P(site string) {
 //	op=wait&site=X&n=N&ms=T         block until N goroutines are parked at X
 //	op=hits                         JSON of hit counters and parked counts
 //	op=reset                        release and forget all gates, zero counters
+//	op=locks                        JSON of the lock-order edges seen so far (not cleared by reset)
 func Control(w http.ResponseWriter, r *http.Request) {
 	q := r.URL.Query()
 	atoi := func(k string, d int) int {
@@ -188,6 +271,21 @@ func Control(w http.ResponseWriter, r *http.Request) {
 			out.Parked[k] = g.waiting
 		}
 		mu.Unlock()
+		json.NewEncoder(w).Encode(out)
+	case "locktrack":
+		lockTrack.Store(atoi("v", 0) != 0)
+		w.Write([]byte("ok"))
+	case "locks":
+		lmu.Lock()
+		out := struct {
+			Acquisitions uint64      `json:"acquisitions"`
+			Edges        []*lockEdge `json:"edges"`
+		}{Acquisitions: lockAcqs}
+		for _, e := range lockEdges {
+			c := *e
+			out.Edges = append(out.Edges, &c)
+		}
+		lmu.Unlock()
 		json.NewEncoder(w).Encode(out)
 	case "reset":
 		mu.Lock()
